@@ -494,7 +494,7 @@ func TestVerifC02Shape(t *testing.T) {
 		"blocked-null-ip-addr", "blocked-null-ip-nodata", "blocked-custom-ip-addr", "blocked-custom-ip-nodata", "blocked-nxdomain", "blocked-refused",
 		"blocked-by-response", "req-allowed-resp-would-block", "rewrite-cname", "rewrite-ip", "rewrite-rcode",
 		"filtering-off-profile", "filtering-off-device", "anonymous-group-config", "profile-config", "blocked-over-nonempty-upstream",
-		"flag-off-hides-slot", "safety-verdict")
+		"flag-off-hides-slot", "safety-verdict", "later-question-on-same-stack")
 	st.Finish(t)
 
 	base := t.TempDir()
@@ -531,7 +531,10 @@ func TestVerifC02Shape(t *testing.T) {
 			reqDeviceOff
 		)
 
-		requester := rapid.SampledFrom([]int{reqAnon, reqAnon, reqProfile, reqProfile, reqProfile, reqProfile, reqProfileOff, reqDeviceOff}).Draw(t, "requester")
+		// The requester changes from question to question on the same stack, so
+		// that nothing of one request (pooled contexts, constructors) can leak
+		// into the next.
+		requester := reqAnon
 
 		srvMode, profMode := vc02ref.DrawMode(t, "srvMode"), vc02ref.DrawMode(t, "profMode")
 		ttls := []int{0, 1, 10, 60, 300, 3600}
@@ -564,10 +567,10 @@ func TestVerifC02Shape(t *testing.T) {
 			Ratelimiter:         agd.GlobalRatelimiter{},
 			ID:                  "prof1234",
 			FilteredResponseTTL: time.Duration(profTTL) * time.Second,
-			FilteringEnabled:    requester != reqProfileOff,
+			FilteringEnabled:    true,
 			QueryLogEnabled:     rapid.IntRange(0, 3).Draw(t, "queryLog") != 0,
 		}
-		dev := &agd.Device{ID: "dev1234", FilteringEnabled: requester != reqDeviceOff}
+		dev := &agd.Device{ID: "dev1234", FilteringEnabled: true}
 		grp := &agd.FilteringGroup{
 			ID: "grp",
 			FilterConfig: &filter.ConfigGroup{
@@ -575,17 +578,6 @@ func TestVerifC02Shape(t *testing.T) {
 				RuleList:     &filter.ConfigRuleList{IDs: vc02IDs(grpFlags.ListIDs), Enabled: grpFlags.RuleListsOn},
 				SafeBrowsing: vc02SafeBrowsing(grpFlags),
 			},
-		}
-
-		// The configuration, mode and TTL the statement prescribes for this
-		// requester.
-		var eff *vc02ref.Config
-		mode, ttl := profMode, profTTL
-		switch requester {
-		case reqAnon:
-			eff, mode, ttl = w.Effective(grpFlags, false), srvMode, srvTTL
-		case reqProfile:
-			eff = w.Effective(profFlags, true)
 		}
 
 		seen := &vc02Seen{}
@@ -645,208 +637,247 @@ func TestVerifC02Shape(t *testing.T) {
 
 		h := rlMw.Wrap(mainMw.Wrap(up))
 
-		// Question.
-		host := focus
-		if rapid.IntRange(0, 3).Draw(t, "otherHost") == 0 {
-			host = rapid.SampledFrom(vc02ref.Hosts).Draw(t, "host")
+		type vq struct {
+			host string
+			qt   uint16
 		}
 
-		qt := rapid.SampledFrom(vc02ref.QTypes).Draw(t, "qt")
-		up.script = vc02ref.DrawUpAnswer(t, qt)
+		asked := map[vq]bool{}
+		nQ := rapid.IntRange(1, 3).Draw(t, "nQuestions")
+		for qi := 0; qi < nQ; qi++ {
+			*seen = vc02Seen{}
+			up.asked, up.sent = nil, nil
+			nErrs := len(ec.errs)
 
-		req := &dns.Msg{}
-		req.Id = uint16(rapid.IntRange(0, 65535).Draw(t, "id"))
-		req.RecursionDesired = true
-		req.Question = []dns.Question{{Name: vc02MixCase(t, host) + ".", Qtype: qt, Qclass: dns.ClassINET}}
-		if rapid.Bool().Draw(t, "edns") {
-			req.SetEdns0(1232, false)
-		}
+			requester = rapid.SampledFrom([]int{reqAnon, reqAnon, reqProfile, reqProfile, reqProfile, reqProfile, reqProfileOff, reqDeviceOff}).Draw(t, "requester")
+			prof.FilteringEnabled = requester != reqProfileOff
+			dev.FilteringEnabled = requester != reqDeviceOff
 
-		sentReq := req.Copy()
+			// The configuration, mode and TTL the statement prescribes for this
+			// requester.
+			var eff *vc02ref.Config
+			mode, ttl := profMode, profTTL
+			switch requester {
+			case reqAnon:
+				eff, mode, ttl = w.Effective(grpFlags, false), srvMode, srvTTL
+			case reqProfile:
+				eff = w.Effective(profFlags, true)
+			}
 
-		raddr := &net.TCPAddr{IP: net.IP{192, 0, 2, 77}, Port: 4242}
-		laddr := &net.TCPAddr{IP: net.IP{127, 0, 0, 1}, Port: 853}
-		nrw := dnsserver.NewNonWriterResponseWriter(laddr, raddr)
-		ctx := dnsserver.ContextWithRequestInfo(context.Background(), &dnsserver.RequestInfo{StartTime: time.Now()})
+			// Question.
+			host := focus
+			if rapid.IntRange(0, 3).Draw(t, "otherHost") == 0 {
+				host = rapid.SampledFrom(vc02ref.Hosts).Draw(t, "host")
+			}
 
-		desc := map[string]any{
-			"config": eff.Describe(), "requester": []string{"anonymous", "profile", "profile-filtering-off", "device-filtering-off"}[requester],
-			"mode": mode.String(), "ttl": ttl, "server_mode": srvMode.String(), "server_ttl": srvTTL, "profile_mode": profMode.String(), "profile_ttl": profTTL,
-			"question": fmt.Sprintf("%s %s", req.Question[0].Name, dns.TypeToString[qt]),
-		}
+			qt := rapid.SampledFrom(vc02ref.QTypes).Draw(t, "qt")
+			if asked[vq{host, qt}] {
+				// The same question twice on one storage would be answered from the
+				// safety filters' result caches; that is C12's subject.
+				continue
+			}
 
-		if err := h.ServeDNS(ctx, nrw, req); err != nil {
-			t.Fatalf("case %v: ServeDNS: %v", desc, err)
-		}
+			asked[vq{host, qt}] = true
+			up.script = vc02ref.DrawUpAnswer(t, qt)
 
-		written := nrw.Msg()
-		if written == nil {
-			t.Fatalf("case %v: nothing written", desc)
-		}
+			req := &dns.Msg{}
+			req.Id = uint16(rapid.IntRange(0, 65535).Draw(t, "id"))
+			req.RecursionDesired = true
+			req.Question = []dns.Question{{Name: vc02MixCase(t, host) + ".", Qtype: qt, Qclass: dns.ClassINET}}
+			if rapid.Bool().Draw(t, "edns") {
+				req.SetEdns0(1232, false)
+			}
 
-		if len(up.sent) > 0 {
-			desc["upstream"] = vc02ref.MsgString(up.sent[0])
-		}
+			sentReq := req.Copy()
 
-		c := &vc02Case{req: sentReq, written: written, up: up, seen: seen, mode: mode, ttl: ttl}
+			raddr := &net.TCPAddr{IP: net.IP{192, 0, 2, 77}, Port: 4242}
+			laddr := &net.TCPAddr{IP: net.IP{127, 0, 0, 1}, Port: 853}
+			nrw := dnsserver.NewNonWriterResponseWriter(laddr, raddr)
+			ctx := dnsserver.ContextWithRequestInfo(context.Background(), &dnsserver.RequestInfo{StartTime: time.Now()})
 
-		// Judge: the written answer must be explained by an acceptable verdict.
-		reqOuts := eff.EvalRequest(host, qt)
-		var respOuts []vc02ref.Outcome
-		var why []string
-		var got, gotResp vc02ref.Outcome
-		explained := false
-		for _, o := range reqOuts {
-			if o.Kind == vc02ref.ONone {
-				if len(up.sent) != 1 {
-					why = append(why, fmt.Sprintf("no request verdict: upstream asked %d times", len(up.sent)))
+			desc := map[string]any{
+				"config": eff.Describe(), "requester": []string{"anonymous", "profile", "profile-filtering-off", "device-filtering-off"}[requester],
+				"mode": mode.String(), "ttl": ttl, "server_mode": srvMode.String(), "server_ttl": srvTTL, "profile_mode": profMode.String(), "profile_ttl": profTTL,
+				"question": fmt.Sprintf("%s %s", req.Question[0].Name, dns.TypeToString[qt]),
+			}
 
-					continue
-				}
+			if err := h.ServeDNS(ctx, nrw, req); err != nil {
+				t.Fatalf("case %v: ServeDNS: %v", desc, err)
+			}
 
-				respOuts = eff.EvalResponse(up.sent[0])
-				for _, ro := range respOuts {
-					err := c.explainsResp(ro)
-					if err == nil {
-						got, gotResp, explained = o, ro, true
+			written := nrw.Msg()
+			if written == nil {
+				t.Fatalf("case %v: nothing written", desc)
+			}
 
-						break
+			if len(up.sent) > 0 {
+				desc["upstream"] = vc02ref.MsgString(up.sent[0])
+			}
+
+			c := &vc02Case{req: sentReq, written: written, up: up, seen: seen, mode: mode, ttl: ttl}
+
+			// Judge: the written answer must be explained by an acceptable verdict.
+			reqOuts := eff.EvalRequest(host, qt)
+			var respOuts []vc02ref.Outcome
+			var why []string
+			var got, gotResp vc02ref.Outcome
+			explained := false
+			for _, o := range reqOuts {
+				if o.Kind == vc02ref.ONone {
+					if len(up.sent) != 1 {
+						why = append(why, fmt.Sprintf("no request verdict: upstream asked %d times", len(up.sent)))
+
+						continue
 					}
 
-					why = append(why, fmt.Sprintf("as no request verdict + response %s: %v", ro, err))
-				}
-			} else if err := c.explains(o); err == nil {
-				got, explained = o, true
-			} else {
-				why = append(why, fmt.Sprintf("as %s: %v", o, err))
-			}
+					respOuts = eff.EvalResponse(up.sent[0])
+					for _, ro := range respOuts {
+						err := c.explainsResp(ro)
+						if err == nil {
+							got, gotResp, explained = o, ro, true
 
-			if explained {
-				break
-			}
-		}
+							break
+						}
 
-		if !explained {
-			t.Fatalf("case %v\nwritten %s\nrule statistics (%q, %q)\nnot explained by any acceptable verdict %s:\n  %s",
-				desc, vc02ref.MsgString(written), seen.statID, seen.statText, vc02ref.OutcomesString(reqOuts), strings.Join(why, "\n  "))
-		}
-
-		// The query log, when written, carries the verdicts themselves.
-		wantLog := requester != reqAnon && prof.QueryLogEnabled
-		if wantLog != (len(seen.logged) == 1) {
-			t.Fatalf("case %v: %d query-log entries, want logged=%t", desc, len(seen.logged), wantLog)
-		}
-
-		if wantLog {
-			e := seen.logged[0]
-			if _, ok := vc02ref.Accept(vc02ObserveResult(e.RequestResult), reqOuts); !ok {
-				t.Fatalf("case %v: logged request verdict %s, acceptable %s", desc, vc02ObserveResult(e.RequestResult), vc02ref.OutcomesString(reqOuts))
-			}
-
-			if got.Kind == vc02ref.ONone {
-				if _, ok := vc02ref.Accept(vc02ObserveResult(e.ResponseResult), respOuts); !ok {
-					t.Fatalf("case %v: logged response verdict %s, acceptable %s", desc, vc02ObserveResult(e.ResponseResult), vc02ref.OutcomesString(respOuts))
-				}
-			}
-		}
-
-		// Classes.
-		classes := []string{"verdict-" + got.Kind.String(), mode.Class()}
-		upNonEmpty := len(up.sent) == 1 && len(up.sent[0].Answer) > 0
-		blockedShape := func(prefix string) {
-			isAddr := qt == dns.TypeA || qt == dns.TypeAAAA
-			switch mode.Kind {
-			case vc02ref.MNull:
-				if isAddr {
-					classes = append(classes, prefix+"-null-ip-addr")
+						why = append(why, fmt.Sprintf("as no request verdict + response %s: %v", ro, err))
+					}
+				} else if err := c.explains(o); err == nil {
+					got, explained = o, true
 				} else {
-					classes = append(classes, prefix+"-null-ip-nodata")
+					why = append(why, fmt.Sprintf("as %s: %v", o, err))
 				}
-			case vc02ref.MCustom:
-				if (qt == dns.TypeA && len(mode.V4) > 0) || (qt == dns.TypeAAAA && len(mode.V6) > 0) {
-					classes = append(classes, prefix+"-custom-ip-addr")
-				} else {
-					classes = append(classes, prefix+"-custom-ip-nodata")
-				}
-			case vc02ref.MNXDomain:
-				classes = append(classes, prefix+"-nxdomain")
-			case vc02ref.MRefused:
-				classes = append(classes, prefix+"-refused")
-			}
 
-			if upNonEmpty {
-				classes = append(classes, "blocked-over-nonempty-upstream")
-			}
-		}
-
-		replaced := false
-		switch got.Kind {
-		case vc02ref.OBlocked, vc02ref.OSafeBlock:
-			blockedShape("blocked")
-			replaced = upNonEmpty
-		case vc02ref.ONone:
-			classes = append(classes, "resp-verdict-"+gotResp.Kind.String())
-			if gotResp.Kind == vc02ref.OBlocked {
-				blockedShape("blocked")
-				classes = append(classes, "blocked-by-response")
-				replaced = true
-			}
-		case vc02ref.OAllowed:
-			for _, ro := range eff.EvalResponse(up.sent[0]) {
-				if ro.Kind == vc02ref.OBlocked {
-					classes = append(classes, "req-allowed-resp-would-block")
-
+				if explained {
 					break
 				}
 			}
-		case vc02ref.ORwCNAME:
-			classes = append(classes, "rewrite-cname")
-		case vc02ref.ORwIP:
-			classes = append(classes, "rewrite-ip")
-			replaced = upNonEmpty
-		case vc02ref.ORwRcode:
-			classes = append(classes, "rewrite-rcode")
-			replaced = upNonEmpty
-		}
 
-		if got.Kind != vc02ref.ONone && got.List != vc02ref.IDCustom && got.List != vc02ref.IDSvc && !strings.HasPrefix(got.List, "l") {
-			classes = append(classes, "safety-verdict")
-		}
-
-		switch requester {
-		case reqAnon:
-			classes = append(classes, "anonymous-group-config")
-		case reqProfile:
-			classes = append(classes, "profile-config")
-		case reqProfileOff:
-			classes = append(classes, "filtering-off-profile")
-		case reqDeviceOff:
-			classes = append(classes, "filtering-off-device")
-		}
-
-		// Would the verdict differ if every slot of the world were in effect?
-		if eff != nil {
-			all := w.All()
-			if vc02ref.OutcomesString(all.EvalRequest(host, qt)) != vc02ref.OutcomesString(reqOuts) {
-				classes = append(classes, "flag-off-hides-slot")
+			if !explained {
+				t.Fatalf("case %v\nwritten %s\nrule statistics (%q, %q)\nnot explained by any acceptable verdict %s:\n  %s",
+					desc, vc02ref.MsgString(written), seen.statID, seen.statText, vc02ref.OutcomesString(reqOuts), strings.Join(why, "\n  "))
 			}
-		}
 
-		if len(ec.errs) > 0 {
-			classes = append(classes, "errors-collected")
-		}
+			// The query log, when written, carries the verdicts themselves.
+			wantLog := requester != reqAnon && prof.QueryLogEnabled
+			if wantLog != (len(seen.logged) == 1) {
+				t.Fatalf("case %v: %d query-log entries, want logged=%t", desc, len(seen.logged), wantLog)
+			}
 
-		slots := eff.Slots(host, qt)
-		nt := ""
-		if slots >= 2 || replaced {
-			nt = fmt.Sprintf("%v", desc)
-		}
+			if wantLog {
+				e := seen.logged[0]
+				if _, ok := vc02ref.Accept(vc02ObserveResult(e.RequestResult), reqOuts); !ok {
+					t.Fatalf("case %v: logged request verdict %s, acceptable %s", desc, vc02ObserveResult(e.RequestResult), vc02ref.OutcomesString(reqOuts))
+				}
 
-		st.Case(nt, classes...)
-		if st.WantSample() && slots >= 2 && got.Kind != vc02ref.ONone {
-			desc["written"] = vc02ref.MsgString(written)
-			desc["verdict"] = got.String()
-			st.Sample(desc)
+				if got.Kind == vc02ref.ONone {
+					if _, ok := vc02ref.Accept(vc02ObserveResult(e.ResponseResult), respOuts); !ok {
+						t.Fatalf("case %v: logged response verdict %s, acceptable %s", desc, vc02ObserveResult(e.ResponseResult), vc02ref.OutcomesString(respOuts))
+					}
+				}
+			}
+
+			// Classes.
+			classes := []string{"verdict-" + got.Kind.String(), mode.Class()}
+			upNonEmpty := len(up.sent) == 1 && len(up.sent[0].Answer) > 0
+			blockedShape := func(prefix string) {
+				isAddr := qt == dns.TypeA || qt == dns.TypeAAAA
+				switch mode.Kind {
+				case vc02ref.MNull:
+					if isAddr {
+						classes = append(classes, prefix+"-null-ip-addr")
+					} else {
+						classes = append(classes, prefix+"-null-ip-nodata")
+					}
+				case vc02ref.MCustom:
+					if (qt == dns.TypeA && len(mode.V4) > 0) || (qt == dns.TypeAAAA && len(mode.V6) > 0) {
+						classes = append(classes, prefix+"-custom-ip-addr")
+					} else {
+						classes = append(classes, prefix+"-custom-ip-nodata")
+					}
+				case vc02ref.MNXDomain:
+					classes = append(classes, prefix+"-nxdomain")
+				case vc02ref.MRefused:
+					classes = append(classes, prefix+"-refused")
+				}
+
+				if upNonEmpty {
+					classes = append(classes, "blocked-over-nonempty-upstream")
+				}
+			}
+
+			replaced := false
+			switch got.Kind {
+			case vc02ref.OBlocked, vc02ref.OSafeBlock:
+				blockedShape("blocked")
+				replaced = upNonEmpty
+			case vc02ref.ONone:
+				classes = append(classes, "resp-verdict-"+gotResp.Kind.String())
+				if gotResp.Kind == vc02ref.OBlocked {
+					blockedShape("blocked")
+					classes = append(classes, "blocked-by-response")
+					replaced = true
+				}
+			case vc02ref.OAllowed:
+				for _, ro := range eff.EvalResponse(up.sent[0]) {
+					if ro.Kind == vc02ref.OBlocked {
+						classes = append(classes, "req-allowed-resp-would-block")
+
+						break
+					}
+				}
+			case vc02ref.ORwCNAME:
+				classes = append(classes, "rewrite-cname")
+			case vc02ref.ORwIP:
+				classes = append(classes, "rewrite-ip")
+				replaced = upNonEmpty
+			case vc02ref.ORwRcode:
+				classes = append(classes, "rewrite-rcode")
+				replaced = upNonEmpty
+			}
+
+			if got.Kind != vc02ref.ONone && got.List != vc02ref.IDCustom && got.List != vc02ref.IDSvc && !strings.HasPrefix(got.List, "l") {
+				classes = append(classes, "safety-verdict")
+			}
+
+			switch requester {
+			case reqAnon:
+				classes = append(classes, "anonymous-group-config")
+			case reqProfile:
+				classes = append(classes, "profile-config")
+			case reqProfileOff:
+				classes = append(classes, "filtering-off-profile")
+			case reqDeviceOff:
+				classes = append(classes, "filtering-off-device")
+			}
+
+			// Would the verdict differ if every slot of the world were in effect?
+			if eff != nil {
+				all := w.All()
+				if vc02ref.OutcomesString(all.EvalRequest(host, qt)) != vc02ref.OutcomesString(reqOuts) {
+					classes = append(classes, "flag-off-hides-slot")
+				}
+			}
+
+			if len(ec.errs) > nErrs {
+				classes = append(classes, "errors-collected")
+			}
+
+			if qi > 0 {
+				classes = append(classes, "later-question-on-same-stack")
+			}
+
+			slots := eff.Slots(host, qt)
+			nt := ""
+			if slots >= 2 || replaced {
+				nt = fmt.Sprintf("%v", desc)
+			}
+
+			st.Case(nt, classes...)
+			if st.WantSample() && slots >= 2 && got.Kind != vc02ref.ONone {
+				desc["written"] = vc02ref.MsgString(written)
+				desc["verdict"] = got.String()
+				st.Sample(desc)
+			}
 		}
 	})
 }
